@@ -13,7 +13,7 @@ def main():
     covmon._root = os.path.realpath(os.path.join(os.environ.get('VERIF_SRC', '/repo/src'), 'ansi_string'))
     d = os.path.join(ROOT, 'build', 'cov')
     ids = []
-    for f in sorted(os.listdir(d)) if os.path.isdir(d) else []:
+    for f in sorted(x for x in os.listdir(d) if x.endswith('.json')) if os.path.isdir(d) else []:
         covmon.load(json.load(open(os.path.join(d, f)))); ids.append(f[:-5])
     out = ['# Implementation code no check reaches', '',
            'Merged over the quick runs of: %s.' % ' '.join(ids), '']
